@@ -4,8 +4,8 @@ set -e
 cd "$(dirname "$0")/.."
 export CARGO_NET_OFFLINE=true
 mkdir -p work evidence replays
-python3 tools/translate.py
-(cd lean && lake build Shp shpdriver 2>&1 | tail -3)
 [ -f harness/Cargo.lock ] || cp /repo/Cargo.lock harness/Cargo.lock
 (cd harness && cargo build --release --offline 2>&1 | tail -2)
+python3 tools/translate.py
+(cd lean && lake build Shp shpdriver 2>&1 | tail -3)
 echo "setup done"
